@@ -190,7 +190,7 @@ def tlc_trace(tla, shards, pid, cfg="Trace.cfg", par=None, env=None, timeout=360
                     if line.startswith('{"cls":"zone-') or '"op":"zone"' in line[:400]:
                         try:
                             zr = json.loads(line)
-                            if zr.get("op") == "zone":
+                            if zr.get("op") == "zone" and zr.get("slot", 1) != 2:
                                 zone = {"name": zr.get("name"), "cls": zr.get("cls"), "src": zr.get("src", ""),
                                         "xyear": zr.get("xyear", 0)}
                         except Exception:
